@@ -348,7 +348,7 @@ def run(tier):
         rep.setcov('histories', dict(from_tlc=len(hists) * ninst, related_key_pairs=n_related, file_reference_histories=n_refpairs, long_random=nlong + 4, steps_at_cache_limit=evictions,
                                      caches_observable=observable, steps_after_overflow=overflowed, largest_cache_seen=maxlen_seen,
                                      repository_suite_history=len(suite_hist)))
-        if observable and not overflowed and maxlen_seen <= 20:
+        if observable and not overflowed and not evictions:
             raise MachineryError('vacuity guard: no history overflowed a cache (largest seen: %d entries)' % maxlen_seen)
         if not observable:
             rep.notes.append('the memo dicts are not kept under their former names: the cache model is not bound in this run '
